@@ -53,7 +53,12 @@ def c04_shift(ctx, case):
     n = np.arange(len(x))
     sig = {"row": row, "parity": nfft % 2, "clause": "shift"}
     ctx.sig_on_exception = sig
-    a = est.psd_of(est.build(row, x, p, NFFT=nfft))
+    oa = est.build(row, x, p, NFFT=nfft)
+    a = est.psd_of(oa)
+    why = est.degenerate(row, oa)
+    if why:
+        ctx.exclude(why)
+        return
     # phase reduced modulo NFFT so that the modulation is exact for |m n| large
     y = x * np.exp(2j * np.pi * ((m * n) % nfft) / float(nfft))
     b = est.psd_of(est.build(row, y, p, NFFT=nfft))
@@ -70,7 +75,12 @@ def c04_conj(ctx, case):
     x = gen.realise(case["x"]).astype(complex)
     sig = {"row": row, "parity": nfft % 2, "clause": "conj"}
     ctx.sig_on_exception = sig
-    a = np.real(est.psd_of(est.build(row, x, p, NFFT=nfft)))
+    oa = est.build(row, x, p, NFFT=nfft)
+    a = np.real(est.psd_of(oa))
+    why = est.degenerate(row, oa)
+    if why:
+        ctx.exclude(why)
+        return
     b = est.psd_of(est.build(row, np.conj(x), p, NFFT=nfft))
     ctx.cls(row, "odd" if nfft % 2 else "even")
     ctx.nontrivial(two_distinct(x) and float(np.max(np.abs(x.imag))) > 0)
@@ -85,7 +95,12 @@ def c04_real(ctx, case):
     x = gen.realise(case["x"]).astype(float)
     sig = {"row": row, "parity": nfft % 2, "clause": "real"}
     ctx.sig_on_exception = sig
-    one = est.psd_of(est.build(row, x, p, NFFT=nfft))
+    oa = est.build(row, x, p, NFFT=nfft)
+    one = est.psd_of(oa)
+    why = est.degenerate(row, oa)
+    if why:
+        ctx.exclude(why)
+        return
     two = est.psd_of(est.build(row, x.astype(complex), p, NFFT=nfft))
     L = nfft // 2 + 1 if nfft % 2 == 0 else (nfft + 1) // 2
     ctx.cls(row, "odd" if nfft % 2 else "even")
